@@ -116,6 +116,8 @@ def run_obligation(prop, o, log):
         s.set("timeout", timeout_ms)
         for a in q.assertions:
             s.add(a)
+        res["states"] = res.get("states", 0) + 1
+        res["transitions"] = res.get("transitions", 0) + len(q.assertions)
         t1 = time.time()
         r = s.check()
         dt = time.time() - t1
@@ -292,6 +294,12 @@ def _run_path_queries(prop, o, res, queries, encoded, timeout_ms, log, t0):
         t1 = time.time()
         r, path, _s = q.run(timeout_ms)
         res["queries"] += 1
+        try:
+            nodes, csucc = q.cfg.compact(set(q.ops) | {"bb0"})
+            res["states"] = res.get("states", 0) + len(nodes) * q.L
+            res["transitions"] = res.get("transitions", 0) + sum(len(v) for v in csucc.values()) * q.L
+        except Exception:
+            pass
         res["solver_s"] += time.time() - t1
         if q.expect == "sat":
             if r == "sat":
@@ -310,6 +318,7 @@ def _run_path_queries(prop, o, res, queries, encoded, timeout_ms, log, t0):
             log("      " + ln[:200])
         if q.scenario:
             violated, tr = run_scenario(q.scenario, log, os.path.join(BUILD, "replay", prop))
+            res["native_replays"] = res.get("native_replays", 0) + 1
             if violated:
                 res["replayed"] = True
                 res["replay_path"] = tr
@@ -321,6 +330,21 @@ def _run_path_queries(prop, o, res, queries, encoded, timeout_ms, log, t0):
             res["replay_path"] = "no native scenario for this obligation"
         res["violations"].append(rec)
         res["status"] = "FAILED"
+    # validation against the implementation: every concrete scenario attached to a discharged query is
+    # also executed natively; it must agree with the solver (hold). A scenario that shows a violation
+    # although the path query is unsat is reported as a violation (it is its own native replay).
+    if res["status"] == "OK":
+        for scen in sorted({q.scenario for q in queries if q.scenario and q.expect == "unsat"}):
+            violated, tr = run_scenario(scen, log, os.path.join(BUILD, "replay", prop))
+            res["native_replays"] = res.get("native_replays", 0) + 1
+            if violated:
+                res["violations"].append({"description": "scenario %s violates the property natively although the path query is unsat" % scen,
+                                          "function": scen, "file": "", "line": ""})
+                res["status"] = "FAILED"
+                res["replayed"] = True
+                res["replay_path"] = tr
+            elif violated is None:
+                log("      scenario %s could not be run (no verdict)" % scen)
     if sat_witness:
         res["witness_sat"] = True
     elif res["status"] == "OK":
